@@ -22,22 +22,23 @@ def run(ctx):
         raise Inconclusive("expected 54 cases, got %d" % len(cases))
     scen = []
     rng = random.Random(ctx.seed * 15485863 + 2)
-    for i, c in enumerate(cases):
+    for rep in range(1 if quick else 4):
+      for i, c in enumerate(cases):
         for j, chunk in enumerate(["whole", "random", "byte"]):
             bits = "sample"
-            if not quick and c["mod"] in ("flip_repr", "flip_auth", "flip_mark", "flip_mac") and c["cfg"] == "right" and j == 0:
+            if not quick and c["mod"] in ("flip_repr", "flip_auth", "flip_mark", "flip_mac") and c["cfg"] == "right" and j == rep % 3:
                 bits = "all"
-            scen.append({"id": "case%d.%d" % (i, j), "kind": "case", "cfg": c["cfg"], "responder": c["responder"], "mod": c["mod"], "bits": bits,
+            scen.append({"id": "case%d.%d.%d" % (i, j, rep), "kind": "case", "cfg": c["cfg"], "responder": c["responder"], "mod": c["mod"], "bits": bits,
                          "nsample": 6 if quick else (256 if c["mod"] == "flip_pad" else 16), "chunk": chunk, "legacy": (i + j) % 3 == 0,
-                         "seed": ctx.seed * 10000 + i * 10 + j})
+                         "seed": ctx.seed * 10000 + i * 10 + j + 100000 * rep})
     # the honest path under every two-segment split around the mark and the MAC of the response (and some elsewhere)
     cutpos = list(range(-70, 34)) if not quick else [-65, -33, -17, -16, -15, -1, 0, 1, 8, 15, 16, 17, 24, 31, 32, 33]
     for k, cut in enumerate(cutpos):
         scen.append({"id": "split%d" % k, "kind": "case", "cfg": "right", "responder": "genuine", "mod": "none", "bits": "sample", "nsample": 1,
                      "chunk": "split", "cut": cut, "legacy": k % 3 == 0, "seed": ctx.seed * 10000 + 7000 + k})
-    for k in range(2 if quick else 10):
+    for k in range(2 if quick else 30):
         scen.append({"id": "fresh%d" % k, "kind": "fresh", "n": 32 if quick else 64, "seed": k})
-    for k in range(3 if quick else 20):
+    for k in range(3 if quick else 60):
         scen.append({"id": "freshfault%d" % k, "kind": "freshfault", "n": 18 if quick else 45, "seed": ctx.seed * 100 + k})
     binary = ctx.go_build("./cmd/c02")
     traces = ctx.exec_scenarios(binary, scen, "c02", shards=14, timeout=3000)
